@@ -83,7 +83,7 @@ def run(ctx):
     scens = [construction_history(rnd, "k%d" % i) for i in range(n)]
     scens += [arbitrary_order(rnd, "a%d" % i) for i in range(n // 3)] + [KNOWN_INPUT] + [fixed_target(rnd, "f%d" % i) for i in range(n // 3)]
     gen = gl.mc_and_scripts(ctx, ['seq', 'localp1', 'localp2', 'localpb', 'wavelet', 'globalcc', 'fourier'], rnd, 200 if ctx.quick else 1200, maxlen=None if ctx.quick else 5, genlen=3 if ctx.quick else 4, mc=True)
-    gl.run_grid(ctx, gen + [("construct", scens), ("mixed", gl.mixed_family(rnd, max(40, n // 5)))], gl.OBS_NODAL, "C09")
+    gl.run_grid(ctx, gen + [("construct", scens), ("mixed", gl.mixed_family(rnd, max(40, n // 5)))], gl.OBS_NODAL, "C09", env={"VERIF_NODAL_AT_FINISH": "1"})
     ctx.assume("the spec promotes the largest admissible subset of all delivered samples after every delivery; since it is a function of the delivered set only, acceptance of every order/batching implies order independence")
 
 
